@@ -75,10 +75,23 @@ def decoder_suite(ctx, vh, name, args, shard):
             ctx.sample({"suite": "siodecode/" + name, "frames": [bytes(f).decode("latin-1") for f in r["frames"]],
                         "fam": r["fam"], "outs": r["outs"], "dec": r["dec"], "bins": r["bins"]}, limit=3)
             break
-    bad_oracle = ctx.coq_eval_cases("c10_oracle_" + name, HDR, terms, "oracle", shard=shard)
-    bad_agree = ctx.coq_eval_cases("c10_agree_" + name, HDR, terms, "agree", shard=shard)
+    # rows of different handler families often are the same model question (e.g. the JSON library
+    # refused the payload for each of them): identical terms are evaluated once
+    first = {}
+    for i, t in enumerate(terms):
+        first.setdefault(t, i)
+    uniq = sorted(first.values())
+    uterms = [terms[i] for i in uniq]
+    # one kernel pass for both questions; only the failing cases are evaluated again to tell which
+    bad_any = [uniq[j] for j in ctx.coq_eval_cases("c10_both_" + name, HDR, uterms,
+                                                    "(fun c => oracle c && agree c)", shard=shard)]
+    bad_oracle, bad_agree = [], []
+    if bad_any:
+        sub = [terms[i] for i in bad_any]
+        bad_oracle = [bad_any[j] for j in ctx.coq_eval_cases("c10_oracle_" + name, HDR, sub, "oracle", shard=shard)]
+        bad_agree = [bad_any[j] for j in ctx.coq_eval_cases("c10_agree_" + name, HDR, sub, "agree", shard=shard)]
     ctx.obligation("correspondence:siodecode/" + name, "correspondence", not bad_agree,
-                   "%d cases, %d disagree" % (len(rows), len(bad_agree)))
+                   "%d cases (%d distinct model questions), %d disagree" % (len(rows), len(uniq), len(bad_agree)))
     ctx.obligation("oracle:siodecode/" + name, "oracle", not bad_oracle,
                    "%d cases, %d fail" % (len(rows), len(bad_oracle)))
     seen = set()
@@ -118,5 +131,5 @@ def run(ctx):
     if vh is None:
         return
     decoder_suite(ctx, vh, "corpus", ["-mode", "corpus"], 400)
-    decoder_suite(ctx, vh, "exhaustive", ["-mode", "exhaustive", "-maxlen", "3" if ctx.quick else "5", "-workers", "16"], 2500)
-    decoder_suite(ctx, vh, "mutate", ["-mode", "mutate", "-seed", ctx.seed, "-n", 1500 if ctx.quick else 40000], 500)
+    decoder_suite(ctx, vh, "exhaustive", ["-mode", "exhaustive", "-maxlen", "3" if ctx.quick else "5", "-workers", "16"], 600)
+    decoder_suite(ctx, vh, "mutate", ["-mode", "mutate", "-seed", ctx.seed, "-n", 1000 if ctx.quick else 30000], 250)
